@@ -116,7 +116,7 @@ class Scripted:
     """factory for a scripted BaseAlgorithm: pilots come from a lazily declared symbolic table keyed by (station, period)"""
 
     def __init__(self, cx, stations, max_recompute=1, length=1, subset=None, positive=False, crash_at=None, order=None,
-                 record=None, table=None):
+                 record=None, table=None, dry_run=False):
         from acnportal.algorithms import BaseAlgorithm
 
         outer = self
@@ -135,6 +135,14 @@ class Scripted:
             def schedule(self, active_sessions):
                 t = self.interface.current_time
                 outer.calls.append(dict(t=t, sessions=[s.session_id for s in active_sessions]))
+                if dry_run:
+                    # a look-ahead on the EV copies handed out by the (deprecated, public) active_evs view: must not touch the real EVs
+                    import warnings as _w
+
+                    with _w.catch_warnings():
+                        _w.simplefilter("ignore")
+                        for ev_copy in self.interface.active_evs:
+                            ev_copy.charge(3.0, 208, 5)
                 if outer.crash_at is not None and bool(outer.crash_at == t):
                     outer.crash_at = None
                     raise Boom()
